@@ -308,3 +308,91 @@ pub fn conflict_checks(seed: u64, out: &mut Vec<DFinding>, probes: &mut dyn FnMu
         Err(_) => out.push(DFinding { class: "conflict-report-panic", detail: format!("format_conflicts panicked on {:?}", p) }),
     }
 }
+
+// ---- %grmtools header errors ------------------------------------------------------------------
+
+/// A `%grmtools` section whose `recoverer` value is (wrongly) an array, laid out over a drawn
+/// number of lines: the conversion error must be reported at the bracket that opens the array,
+/// through the same steps nimbleparse and the builders take (parse, merge into a
+/// `Header<Location>`, `RecoveryKind::try_from`, `format_error`).
+pub fn header_checks(seed: u64, out: &mut Vec<DFinding>, probes: &mut dyn FnMut(&'static str), queries: &mut u64) {
+    use cfgrammar::header::{GrmtoolsSectionParser, Header, HeaderError, HeaderValue};
+    use cfgrammar::Location;
+    let mut r = Rng::new(seed ^ 0x4ead);
+    let mut ws = |r: &mut Rng| match r.below(5) {
+        0 => " ".to_string(),
+        1 => "\n".to_string(),
+        2 => "\n    ".to_string(),
+        3 => "\n\n  ".to_string(),
+        _ => "  ".to_string(),
+    };
+    let mut src = String::new();
+    for _ in 0..r.below(4) {
+        src.push('\n');
+    }
+    src.push_str("%grmtools {");
+    let first = r.chance(50);
+    if !first {
+        src.push_str(&ws(&mut r));
+        src.push_str("yacckind: Grmtools,");
+    }
+    src.push_str(&ws(&mut r));
+    src.push_str("recoverer:");
+    src.push_str(&ws(&mut r));
+    src.push('[');
+    let n = 1 + r.below(3);
+    for i in 0..n {
+        src.push_str(&ws(&mut r));
+        src.push_str(&format!("\"v{i}\""));
+        if i + 1 < n || r.chance(50) {
+            src.push(',');
+        }
+    }
+    src.push_str(&ws(&mut r));
+    src.push_str("],");
+    if first {
+        src.push_str(&ws(&mut r));
+        src.push_str("yacckind: Grmtools,");
+    }
+    src.push_str(&ws(&mut r));
+    src.push_str("}\n%start S\n%%\nS: 'a';\n");
+    let p = src.as_str();
+    *queries += 1;
+    let run = || -> Result<(usize, String, String), String> {
+        let (parsed, _) = GrmtoolsSectionParser::new(p, true).parse().map_err(|_| "header rejected".to_string())?;
+        let mut h: Header<Location> = Header::new();
+        h.merge_from(parsed).map_err(|_| "merge failed".to_string())?;
+        let HeaderValue(_, v) = h.get("recoverer").ok_or("no recoverer entry")?;
+        let e = match lrpar::RecoveryKind::try_from(v) {
+            Err(e) => e,
+            Ok(_) => return Err("an array was accepted as a RecoveryKind".into()),
+        };
+        let spans: Vec<Span> = e
+            .locations
+            .iter()
+            .map(|l| match l {
+                Location::Span(s) => Ok(*s),
+                _ => Err("location without a span".to_string()),
+            })
+            .collect::<Result<_, _>>()?;
+        let first = *spans.first().ok_or("no location")?;
+        let spanned: HeaderError<Span> = HeaderError { kind: e.kind, locations: spans };
+        let msg = spanned.to_string();
+        let path = std::path::PathBuf::from("t");
+        let fmt = SpannedDiagnosticFormatter::new(p, &path);
+        let rendered = fmt.format_error(spanned).to_string();
+        Ok((first.start(), msg, rendered))
+    };
+    match catch_unwind(AssertUnwindSafe(run)) {
+        Ok(Ok((at, msg, rendered))) => {
+            probes("header_errors_formatted");
+            let open = p.find('[').unwrap();
+            let exp = ref_underline(p, open, open + 1, "", &msg, '^');
+            if at != open || rendered != exp {
+                out.push(DFinding { class: "header-error-location", detail: format!("`recoverer: [..]` in {:?}: error located at byte {at} (line {}), the array opens at byte {open} (line {}); rendered {:?}, expected {:?}", p, ref_line(p, at.min(p.len())), ref_line(p, open), rendered, exp) });
+            }
+        }
+        Ok(Err(_)) => {}
+        Err(_) => out.push(DFinding { class: "header-error-panic", detail: format!("reporting the bad `recoverer` value of {:?} panicked", p) }),
+    }
+}
